@@ -40,7 +40,7 @@ def plan(tier, seed, rng, scale):
     for k in REF_K:
         for rk in ('ancestor', 'revcomp', 'sample'):
             descs.append({'mode': 'ref', 'k': k, 'refkind': rk, 'seed': rng.getrandbits(32)})
-    n = int((1500 if tier == 'quick' else 40000) * scale)
+    n = int((6000 if tier == 'quick' else 50000) * scale)
     for i in range(n):
         r = i % 10
         if r < 5:
